@@ -319,6 +319,18 @@ theorem multi_answers_unchanged2 (D0 : List (Ent α)) (rs : List (MReorg α)) (h
   rw [hsame] at hA ⊢
   exact hA.trans hB
 
+/-! ### the compaction paths -/
+
+/-- **T12 (the path does not matter).** Streaming and non-streaming compaction (fast and streaming
+self-merge) of the same inputs both write the merge of their inputs (`hN`), so their outputs read
+the same, alone and inside any layout. -/
+theorem paths_equiv (N1 N2 U G : List Cell) (h1 : Equiv N1 (U ++ G)) (h2 : Equiv N2 (U ++ G)) : Equiv N1 N2 :=
+  h1.trans h2.symm
+
+theorem paths_equiv_layout (X N1 N2 U G B : List Cell) (h1 : Equiv N1 (U ++ G)) (h2 : Equiv N2 (U ++ G)) :
+    Equiv (X ++ N1 ++ B) (X ++ N2 ++ B) :=
+  layout_equiv_compact X N1 N2 B (paths_equiv N1 N2 U G h1 h2)
+
 /-! ### non-vacuity -/
 
 /-- one measurement: ordered files 1, 2, 3 and out-of-order files 11, 12; a compaction of 1, 2 → 9
